@@ -405,6 +405,8 @@ def correspondence(ctx):
         # refusals named by the property must raise (whatever the class)
         if case["refusal"] in NAMED and "ok" in d:
             ctx.fail(f"refusal clause: inputs with {case['refusal']} mismatch were blended", shown, {"impl": d})
+        if case["refusal"] == "fields" and "ok" in d:
+            ctx.fail("same-field-set clause: cells with different field sets were blended", shown, {"impl": d})
         if stream == "single-dict" and "err" in d and case["refusal"] is None:
             ctx.fail("a single triangle with dict weights is refused (D17 recurrence)", shown, {"impl": d})
 
